@@ -6,6 +6,7 @@ pub mod hs;
 pub mod inbound;
 pub mod iostate;
 pub mod limiter;
+pub mod payload;
 pub mod respq;
 pub mod selftest;
 pub mod sink;
@@ -19,6 +20,7 @@ pub fn lookup(name: &str) -> Option<Engine> {
         "topic" => Some(topic::run),
         // hand polled, needs no runtime: a plain per-line engine (a panic of the crate prints 9999)
         "limiter" => Some(limiter::run),
+        "payload" => Some(payload::run),
         _ => codec3::lookup(name).or_else(|| codec5::lookup(name)),
     }
 }
